@@ -204,7 +204,7 @@ Finish ==
   /\ UNCHANGED <<st, nid, ncalls, pp>>
 
 Next ==
-  \/ \E api \in {"Write", "AsyncWrite"}, n \in Lens \cup {Max + 1} : WriteMsg(api, n)
+  \/ \E api \in {"Write", "AsyncWrite"}, n \in Lens \cup {Max, Max + 1} : WriteMsg(api, n)
   \/ \E api \in {"WriteFrame", "AsyncWriteFrame"}, src \in {"acq", "newm", "newp"}, n \in Lens \cup {-1} :
        WriteFrm(api, src, n)
   \/ \E api \in {"Close", "AsyncClose"}, n \in {2, 125} : CloseIt(api, n)
